@@ -1,8 +1,8 @@
 #!/bin/bash
-# dev helper: run.sh <Module> [tlc args...]  — runs TLC in a scratch copy
-M=$1; shift
+# dev helper: run.sh <Module> <Config(.cfg omitted)> [tlc args...]  — runs TLC in a scratch copy
+M=$1; C=$2; shift; shift
 W=$(mktemp -d /tmp/tlcw.XXXX); cp /verif/spec/*.tla /verif/spec/*.cfg $W/; cd $W
-timeout ${TLC_TIMEOUT:-900} tlc -workers ${WORKERS:-16} -metadir $W/meta -config $M.cfg "$@" $M.tla 2>&1
+timeout ${TLC_TIMEOUT:-900} tlc -workers ${WORKERS:-16} -metadir $W/meta -config $C.cfg "$@" $M.tla 2>&1
 rc=$?
 cd /; rm -rf $W
 exit $rc
